@@ -61,7 +61,7 @@ def run(ctx):
     obs = ctx.obs
     obs.extra['meta'] = META
     contracts.attach_all(obs, only={'_find_ocean_floor_indexes'})
-    total = ctx.n(420, 12000)
+    total = ctx.n(1200, 30000)
     for case, rng in ctx.cases(total):
         conv = CONVS[case % len(CONVS)]
         spec = {'case': case, 'convention': conv}
@@ -105,6 +105,7 @@ def one_dataset(obs, rng, conv, spec):
         return
     snap = depthgen.snapshot(ds)
     has_time = model.time is not None
+    has_band = info['band_coord'] is not None and 'band' in ds.coords     # only when some variable uses the band dimension
     tname = model.time['name'] if has_time else None
     if len(axes) == 2:
         obs.cls('axes:2')
@@ -114,9 +115,9 @@ def one_dataset(obs, rng, conv, spec):
         routes.append(('ems', list(range(len(axes))), 'time'))
     # direct calls: all coordinates; sometimes only one of two
     if has_time:
-        ns = pick(rng, ['time', 'time', 'time-da', 'none'] + (['time+band'] if info['band_coord'] is not None else []))
+        ns = pick(rng, ['time', 'time', 'time-da', 'none'] + (['time+band'] if has_band else []))
     else:
-        ns = pick(rng, ['none', 'empty'] + (['band'] if info['band_coord'] is not None else []))
+        ns = pick(rng, ['none', 'empty'] + (['band'] if has_band else []))
     routes.append(('direct', list(range(len(axes))), ns))
     if len(axes) == 2 and axes[0]['dim'] != axes[1]['dim'] and chance(rng, 0.4):
         routes.append(('direct', [int(rng.integers(2))], 'time' if has_time else 'none'))
@@ -154,7 +155,6 @@ def one_dataset(obs, rng, conv, spec):
         if isinstance(out, Failed):
             continue
         check_floor(obs, model, ds, snap, before, out, chosen, route, ns, conv)
-    # the input must still describe the same model for the next property run on it (cheap sanity, not a C12 clause)
 
 
 def exc_mech(axes, exc=None):
@@ -194,7 +194,7 @@ def check_floor(obs, model, ds, snap, before, out, chosen, route, ns, conv):
             if a['dim'] in done_dims:
                 obs.cls('depth-bounds-variable-not-asserted')
     # ---- every variable -------------------------------------------------------------------------------------
-    sampled = False
+    sampled = bool(model.depth_info.get('sampled'))
     for name, sv in snap['vars'].items():
         if name in skip or any(name == a['name'] for a in done_axes):
             continue
@@ -244,6 +244,7 @@ def check_floor(obs, model, ds, snap, before, out, chosen, route, ns, conv):
                     tuple(int(c) for c in group_of(info, name)['counts'][:12]))
         if ok and not sampled and len(obs.samples) < 4 and len(var.dims) >= 3 and model.kinds[var.kind].size >= 3:
             sampled = True
+            info['sampled'] = True
             g = group_of(info, name)
             obs.sample({'convention': conv, 'route': route, 'non_spatial': ns, 'variable': name, 'dims': var.dims,
                         'depth coordinate': depthgen.axis_summary(axis), 'wet layers per column': g['counts'][:10],
